@@ -294,6 +294,7 @@ func runC03(w *World, r *Report) {
 	ruleScClimb(w, r)
 	ruleFastLayout(w, r)
 	ruleKwType(w, r)
+	rulePairBool(w, r)
 }
 
 func ruleFastOrder(w *World, r *Report, l *evalLoop, gets map[string][]*ssa.Call, opCalls []*ssa.Call, kindsOfCurt func(*ssa.BasicBlock) map[int64]bool, k nodeKinds) {
